@@ -4,8 +4,22 @@ ALTS = ["bool", "int32", "int64", "uint32", "double", "cstring", "string_view", 
         "span<int64>", "span<uint32>", "span<double>", "span<string_view>", "uint64", "span<uint64>", "span<uint8>"]
 
 
-def _floors(per_alt, explicit, noactive, disabled, ctxchg, mt):
+# owning containers handed to EmitLogRecord / the wrappers DIRECTLY (class label = container type)
+DIRECT = ["map<string,string>", "unordered_map<string,string>", "vector<pair<string,string>>",
+          "map<string,int>", "unordered_map<string,int64>", "vector<pair<string,double>>"]
+
+
+def _floors(per_alt, explicit, noactive, disabled, ctxchg, mt, scale=1):
     f = {}
+    for d in DIRECT:
+        for k in ("simple", "batch", "multi"):
+            f["attr_direct_%s_%s" % (d, k)] = 200 * scale
+    f.update({"direct_calls_path_args": 1200 * scale, "direct_calls_path_wrapper": 500 * scale,
+              "direct_calls_path_record+args": 2000 * scale, "direct_sole_attribute_argument": 1500 * scale,
+              "direct_combined_with_other_attribute_arguments": 1500 * scale,
+              "direct_passed_as_const_lvalue": 3000 * scale, "direct_passed_as_lvalue": 80 * scale,
+              "direct_passed_as_rvalue": 500 * scale, "direct_containers_with_several_elements": 2500 * scale,
+              "direct_owning_string_values_at_synchronous_exporter": 3000 * scale})
     for field in ("body", "attr"):
         for a in ALTS:
             for k in ("simple", "batch", "multi"):
@@ -24,20 +38,26 @@ SPEC = {
     ],
     "floors": {
         "quick": _floors(50, 300, 300, 100, 100, 300),
-        "thorough": _floors(2000, 12000, 12000, 4000, 4000, 10000),
+        "thorough": _floors(2000, 12000, 12000, 4000, 4000, 10000, scale=40),
     },
     "engine": "E1 model-oracle",
     "engines_used": ("E1 model-oracle", "E2 history"),
     "technique": ("reference-model oracle over generated EmitLogRecord argument lists / setter sequences against a real "
                   "LoggerProvider (simple, batch, multiple processors) under ASan+UBSan with caller buffers scribbled or "
                   "freed after the call; real threads with nested scopes under TSan + perturbation shim"),
-    "level_text": ("exploration: seeded programs (scope push/pop, CreateLogRecord, ~80 fixed compile-time instantiations of "
-                   "EmitLogRecord(args...) and the Log/Trace..Fatal wrappers, setters in random order, record+args) run "
+    "level_text": ("exploration: seeded programs (scope push/pop, CreateLogRecord, ~110 fixed compile-time instantiations of "
+                   "EmitLogRecord(args...) and the Log/Trace..Fatal wrappers (attributes as KeyValueIterable, "
+                   "KeyValueIterableView, span/vector/map of AttributeValue pairs, and owning containers passed directly: "
+                   "std::map / std::unordered_map / std::vector<pair> with std::string keys and std::string, int, int64, "
+                   "double mapped values; const lvalue, lvalue, rvalue), setters in random order, record+args) run "
                    "against the real SDK; harness exporters hand out ReadWriteLogRecord and deep-copy every getter at "
                    "Export; a left-to-right model predicts every field. Right level because the property quantifies over "
                    "argument orders, value alternatives, processors and threads, and each emitted record is decided by a "
                    "small model; ownership is decided by value after every caller buffer was scribbled (batch exporters "
-                   "are held on a gate until then), use-after-free by a second pass that frees them under ASan."),
+                   "are held on a gate until then), use-after-free by a second pass that frees them under ASan. While an "
+                   "emit with a directly passed owning container is verified, the exporter asks ASan whether the storage "
+                   "behind an exported string view is still alive before reading it, so a view of a dead temporary is a "
+                   "value-level violation (class <processor>:container-direct:<container type>) instead of an abort."),
     "level_note": ("trusts the record model, the capture visitor and the recording exporter in harness/c13_log_export.cc; "
                    "active spans are DefaultSpan objects with generated contexts (a context holding a bare SpanContext under "
                    "the span key is not generated); NaN excluded; thread interleavings are whatever the perturbed scheduler "
@@ -47,7 +67,10 @@ SPEC = {
              "ScopeConfigurator with all/some scopes disabled) and a program of 10..28 operations: push a frame (span / "
              "unrelated key / empty context / null span, depth <= 5), pop, CreateLogRecord, emit a null record, or emit by "
              "one of three paths: EmitLogRecord(args...) / wrapper from the fixed instantiation list, setters in random order "
-             "+ EmitLogRecord(record), EmitLogRecord(record, args...). Bodies and attribute values are drawn from all 16 "
+             "+ EmitLogRecord(record), EmitLogRecord(record, args...). Directly passed owning containers hold 0..6 "
+             "generated elements (keys from the case's key pool, duplicates kept in vectors) and are the only attribute "
+             "argument or combined with other attribute arguments; after the call their elements are scribbled in place "
+             "(kill=free: the container is destroyed). Bodies and attribute values are drawn from all 16 "
              "AttributeValue alternatives (empty/1-byte/embedded-NUL/high-byte/4096-byte strings, empty..4096-element arrays, "
              "integer extremes, +-0, denormals, infinities). After the emitting call returns every caller buffer is "
              "scribbled (kill=free: emitted a second time with the same arguments and freed), batch processors are flushed "
@@ -60,5 +83,6 @@ SPEC = {
         "severity numbers outside the enum must survive; their text is not judged",
         "an EventId constructed from a name with an embedded NUL is its C-string prefix (logs::EventId stores a NUL-terminated char array): full name or prefix accepted, counted as don't-care; SetEventId(id, view) must keep every byte (--param strict_eventid_nul=1 demands it for EventId too)",
         "explicit identity wins field by field: an explicit TraceId alone leaves span id and flags to the active span",
-        "in the threaded run value buffers stay alive until the case was verified (ownership is decided by the sequential runs)"],
+        "in the threaded run value buffers stay alive until the case was verified (ownership is decided by the sequential runs)",
+        "elements of a directly passed owning container: a simple processor's exporter must see exactly what the container held when the call was made; with a batch processor the record's non-owning views refer to the caller's container, which is the known value-owned finding (same key pattern as every other pointer-carrying value)"],
 }
